@@ -278,7 +278,7 @@ def eval_opt(case: dict) -> dict:
         verdict = "violated"
     res = {
         "verdict": verdict,
-        "violations": viol[:6],
+        "violations": viol if case.get("_no_kf") else viol[:6],  # counterfactual re-runs need every instance
         "n_violations": len(viol),
         "counters": dict(counters),
         "changed": changed,
@@ -313,6 +313,22 @@ def _outside_fragment(ctx: checks.Ctx) -> str:
                 return "theory-or-script"
     if refast.has_classical_negation(ctx.source):
         return "classical-negation"
+    # an anonymous variable in a head atom: clingo derives a hidden projection atom (#p_h(#p,..)) instead of an atom
+    # of the predicate, so "the atoms of h" in an answer set are not what the rule reads like
+    for stm in ctx.source:
+        if stm.ast_type != ASTType.Rule:
+            continue
+        head = stm.head
+        lits = []
+        if head.ast_type == ASTType.Literal:
+            lits.append(head)
+        elif head.ast_type in (ASTType.Disjunction, ASTType.Aggregate):
+            lits.extend(e.literal for e in head.elements)
+        elif head.ast_type == ASTType.HeadAggregate:
+            lits.extend(e.condition.literal for e in head.elements)
+        for lit in lits:
+            if any(n.ast_type == ASTType.Variable and n.name == "_" for n in refast.walk(lit)):
+                return "anonymous-variable-in-head"
     return ""
 
 
